@@ -272,6 +272,68 @@ class FlipCompare(ast.NodeTransformer):
         return node
 
 
+class InvertBranches(ast.NodeTransformer):
+    """``if T: A else: B`` -> ``if not T: B else: A`` (not for elif chains), and
+    the same for conditional expressions: same meaning.  Equality, membership
+    and identity tests are negated by their opposite operator, anything else
+    by ``not``."""
+    OPP = {ast.Eq: ast.NotEq, ast.NotEq: ast.Eq, ast.In: ast.NotIn, ast.NotIn: ast.In,
+           ast.Is: ast.IsNot, ast.IsNot: ast.Is}
+
+    def neg(self, test):
+        if isinstance(test, ast.Compare) and len(test.ops) == 1 and type(test.ops[0]) in self.OPP:
+            return ast.Compare(left=test.left, ops=[self.OPP[type(test.ops[0])]()],
+                               comparators=test.comparators)
+        if isinstance(test, ast.UnaryOp) and isinstance(test.op, ast.Not):
+            return test.operand
+        return ast.UnaryOp(op=ast.Not(), operand=test)
+
+    def visit_If(self, node):
+        self.generic_visit(node)
+        if node.orelse and not (len(node.orelse) == 1 and isinstance(node.orelse[0], ast.If)):
+            node.test = self.neg(node.test)
+            node.body, node.orelse = node.orelse, node.body
+        return node
+
+    def visit_IfExp(self, node):
+        self.generic_visit(node)
+        node.test = self.neg(node.test)
+        node.body, node.orelse = node.orelse, node.body
+        return node
+
+
+class NestGuards(ast.NodeTransformer):
+    """Early exits turned into nesting: in a loop body ``if T: continue`` followed
+    by more statements becomes ``if not T: <those statements>``; anywhere,
+    ``if T: <block ending in return/raise/continue/break>`` followed by more
+    statements becomes ``if T: ... else: <those statements>``.  Same meaning."""
+
+    def _exits(self, stmts):
+        return bool(stmts) and isinstance(stmts[-1], (ast.Return, ast.Raise, ast.Continue, ast.Break))
+
+    def _nest(self, stmts, in_loop):
+        out = list(stmts)
+        for i in range(len(out) - 1, -1, -1):
+            st = out[i]
+            rest = out[i + 1:]
+            if isinstance(st, ast.If) and not st.orelse and rest and self._exits(st.body):
+                if in_loop and len(st.body) == 1 and isinstance(st.body[0], ast.Continue):
+                    new = ast.If(test=InvertBranches().neg(st.test), body=rest, orelse=[])
+                else:
+                    new = ast.If(test=st.test, body=st.body, orelse=rest)
+                out = out[:i] + [ast.copy_location(new, st)]
+        return out
+
+    def generic_visit(self, node):
+        super().generic_visit(node)
+        for field in ('body', 'orelse', 'finalbody'):
+            stmts = getattr(node, field, None)
+            if isinstance(stmts, list) and stmts and isinstance(stmts[0], ast.stmt):
+                in_loop = isinstance(node, (ast.For, ast.While)) and field == 'body'
+                setattr(node, field, self._nest(stmts, in_loop))
+        return node
+
+
 def reorder_functions(tree):
     """Sort every run of consecutive function definitions (module level and
     class bodies) by name: definition order of functions does not matter."""
@@ -309,6 +371,12 @@ def transform(path, mode):
         ast.fix_missing_locations(tree)
     if 'flip' in mode:
         tree = FlipCompare().visit(tree)
+        ast.fix_missing_locations(tree)
+    if 'nest' in mode:
+        tree = NestGuards().visit(tree)
+        ast.fix_missing_locations(tree)
+    if 'invert' in mode:
+        tree = InvertBranches().visit(tree)
         ast.fix_missing_locations(tree)
     if 'reorder' in mode:
         tree = reorder_functions(tree)
